@@ -120,7 +120,29 @@ pub fn check(c: &Poly, rec: &mut Rec) -> Result<(), Violation> {
     rec.class("crosses_base_cell_seam");
   }
   rec.sample(|| json!({"depth": d, "exact": c.exact, "centre": (c.lon_c, c.lat_c), "R": c.r, "convex": c.convex, "verts": c.verts}));
-  let f = |v: Violation| v.fact("depth", d as f64).fact("exact", c.exact as u8 as f64).fact("R", c.r).fact("convex", c.convex as u8 as f64).fact("n_vertices", c.verts.len() as f64).fact("abs_lat", c.lat_c.abs());
+  // bounding cone as the crate computes it (normalised mean of the vertices, largest distance):
+  // only used as facts of a violation, to key known finding D17-C12 on "radius of the bounding cone
+  // within 4% below a starting-depth limit, centre in a polar cap"
+  let (bc_lat, bc_r) = {
+    let mut m = V3 { x: 0.0, y: 0.0, z: 0.0 };
+    for &(l, b) in &c.verts {
+      m = m.add(&V3::from_lonlat(l, b));
+    }
+    let m = m.normalized();
+    let r = c.verts.iter().map(|&(l, b)| geom::ang_dist_v(&m, &V3::from_lonlat(l, b))).fold(0.0, f64::max);
+    (m.lonlat().1, r)
+  };
+  let f = |v: Violation| {
+    v.fact("depth", d as f64)
+      .fact("exact", c.exact as u8 as f64)
+      .fact("R", c.r)
+      .fact("convex", c.convex as u8 as f64)
+      .fact("n_vertices", c.verts.len() as f64)
+      .fact("abs_lat", c.lat_c.abs())
+      .fact("crosses_lon0", crosses_lon0 as u8 as f64)
+      .fact("bounding_cone_abs_lat", bc_lat.abs())
+      .fact("bounding_cone_rel_to_limit", super::cone_common::rel_to_model_limit(bc_r))
+  };
   let b = match catch(|| nested::polygon_coverage(d, &c.verts, c.exact)) {
     Ok(b) => b,
     Err(p) => {
@@ -176,7 +198,7 @@ pub fn check(c: &Poly, rec: &mut Rec) -> Result<(), Violation> {
       let lim = c.r + 2.0 * geom::dmax(x.depth) + 1e-12;
       rec.metric_max("centre_dist_over_limit", dist / lim);
       if !(dist <= lim) {
-        return Err(f(Violation::new("tight", "cell_too_far", format!("polygon_coverage(depth {}, {:?}, exact={}): cell {}/{} has its centre {:e} rad from the centre of the bounding cone (R = {:e}), more than R + 2*Dmax = {:e}", d, c.verts, c.exact, x.depth, x.hash, dist, c.r, lim))));
+        return Err(f(Violation::new("tight", "cell_too_far", format!("polygon_coverage(depth {}, {:?}, exact={}): cell {}/{} has its centre {:e} rad from the centre of the bounding cone (R = {:e}), more than R + 2*Dmax = {:e}", d, c.verts, c.exact, x.depth, x.hash, dist, c.r, lim)).fact("excess_in_dmax", (dist - lim) / geom::dmax(x.depth))));
       }
     }
   }
